@@ -3,6 +3,7 @@ package apiwalk
 import (
 	"context"
 	"fmt"
+	"github.com/bitcoin-sv/block-headers-service/config"
 	"sort"
 	"strings"
 
@@ -71,9 +72,17 @@ func (w *tworld) close() {
 	w.rig.CloseKeep()
 }
 
-func openT(path string) *tworld {
+// adminTokens: the configured admin token is free-form text; one shape has the length and
+// alphabet of issued tokens
+var adminTokens = []string{"", "Adm1nT0kenOfTheSameLengthAs1ssued"[:32]}
+
+func openT(path string, adminToken string) *tworld {
 	w := &tworld{live: map[string]bool{}}
-	w.rig = core.OpenRig(path, core.RigOpts{})
+	w.rig = core.OpenRig(path, core.RigOpts{Cfg: func(c *config.AppConfig) {
+		if adminToken != "" {
+			c.HTTP.AuthToken = adminToken
+		}
+	}})
 	w.api = w.rig.NewAPI(core.APIOpts{Websocket: true, Start: true})
 	return w
 }
@@ -85,7 +94,7 @@ func runC10(env core.Env, rep *core.Report) {
 		depth = 7
 	}
 	maxIssued := 3
-	rep.Bound = fmt.Sprintf("[all operation sequences up to depth %d with at most %d issued tokens; revoke targets: every issued token (live or revoked), an unknown token, the admin token]", depth, maxIssued)
+	rep.Bound = fmt.Sprintf("[all operation sequences up to depth %d with at most %d issued tokens; revoke targets: every issued token (live or revoked), an unknown token, the admin token; admin token alternately the default one and one with the length and alphabet of issued tokens]", depth, maxIssued)
 	// Enumerate operation sequences symbolically (token k = k-th issued).
 	type hist []top
 	var all []hist
@@ -127,14 +136,14 @@ func runC10(env core.Env, rep *core.Report) {
 		if !env.Mine(idx) || rep.Expired() {
 			continue
 		}
-		runTokenHistory(rep, h, seenState)
+		runTokenHistory(rep, h, seenState, adminTokens[idx%len(adminTokens)])
 	}
 	rep.Extra["maximal_sequences_total"] = idx
 }
 
-func runTokenHistory(rep *core.Report, h []top, seenState map[string]bool) {
+func runTokenHistory(rep *core.Report, h []top, seenState map[string]bool, adminToken string) {
 	path := core.NewStoreFile()
-	w := openT(path)
+	w := openT(path, adminToken)
 	defer func() { w.close(); w.rig.Close() }()
 	admin := w.rig.Cfg.HTTP.AuthToken
 	viol := func(step int, kind, what string, exp, obs any) {
@@ -183,7 +192,7 @@ func runTokenHistory(rep *core.Report, h []top, seenState map[string]bool) {
 			nontrivial = true
 			issued, live := w.issued, w.live
 			w.close()
-			w = openT(path)
+			w = openT(path, adminToken)
 			w.issued, w.live = issued, live
 		}
 		rep.Transitions++
